@@ -498,7 +498,7 @@ pub fn run(ctx: &Ctx) -> (Acc, String, bool) {
         thin.push(N::Float(*f));
     }
     let d_total = (thin.len() * thin.len()) as u64;
-    let e_total: u64 = ctx.pick(400_000, 6_000_000);
+    let e_total: u64 = ctx.pick(2_000_000, 100_000_000);
     let total = a_total + c_total + d_total + e_total + 1;
     let seed = ctx.seed;
     let acc = run_cases(ctx, total, |i, acc| {
